@@ -622,6 +622,7 @@ func (t *Tree) Compile(file string, args []string, out io.Writer) (err error) {
 	countsByRule := make([]*[TypeLast]uint, t.RulesCount)
 
 	/* first pass */
+	duplicates := 0
 	for n := range t.Iterator() {
 		switch n.GetType() {
 		case TypePackage:
@@ -643,7 +644,7 @@ func (t *Tree) Compile(file string, args []string, out io.Writer) (err error) {
 				/* only the first definition is used */
 				t.warn(fmt.Errorf("rule '%v' defined more than once", n))
 				n.SetType(TypeUnknown)
-				t.RulesCount--
+				duplicates++
 			} else {
 				expression := n.Front()
 				cp := expression.Copy()
@@ -1336,6 +1337,10 @@ func (t *Tree) Compile(file string, args []string, out io.Writer) (err error) {
 			_print("\n   return false")
 		}
 		_print("\n  },")
+	}
+	/* dropped duplicate definitions keep their slot in the rule ids: pad the table */
+	for range duplicates {
+		_print("\n  nil,")
 	}
 	_print("\n }\n p.rules = _rules")
 	_print("\n return nil")
